@@ -80,6 +80,15 @@ class Posting:
         return s
 
 
+_TRAIL = ["", "", "", " ", "\t", "\u3000", "\u00a0 ", "  \t"]
+
+
+def trail(v):
+    """trailing white space after a declared name or alias (blank, tab, ideographic space, no-break space): it is not
+    part of the name — a posting written without it must reach the same account (deterministic in the text)"""
+    return _TRAIL[sum(map(ord, v)) % len(_TRAIL)]
+
+
 class Entry:
     """kind: 'txn' | 'account' | 'commodity' | 'comment' """
 
@@ -99,14 +108,14 @@ class Entry:
         if self.kind == "comment":
             return "; " + self.body + "\n"
         if self.kind == "account":
-            s = "account %s\n" % self.name
+            s = "account %s%s\n" % (self.name, trail(self.name))
             for k, v in self.details:
-                s += "    %s %s\n" % (k, v)
+                s += "    %s %s%s\n" % (k, v, trail(v) if k == "alias" else "")
             return s
         if self.kind == "commodity":
-            s = "commodity %s\n" % self.name
+            s = "commodity %s%s\n" % (self.name, trail(self.name))
             for k, v in self.details:
-                s += "    %s %s\n" % (k, v)
+                s += "    %s %s%s\n" % (k, v, trail(v) if k == "alias" else "")
             return s
         s = "%s %s\n" % (self.date, self.payee)
         for p in self.postings:
